@@ -19,6 +19,8 @@ import (
 //	<Op>HandlerFunc receivers  : non-nil ("every operation handler is set")
 //	value receivers with a `Request *http.Request` field: that field is non-nil, URL non-nil
 //
+//	response values with a raw `Body io.ReadCloser` field: Body is non-nil
+//
 // Security*Middleware receivers and API fields other than operation handlers
 // are NOT assumed non-nil.
 
@@ -91,6 +93,9 @@ func EnvPre(e *FuncEnc, f *ssa.Function, args []string, st *state) []NamedFormul
 		case *types.Struct:
 			if isRecv {
 				for j := 0; j < u.NumFields(); j++ {
+					if u.Field(j).Name() == "Body" && (isNamed(u.Field(j).Type(), "io", "ReadCloser") || isNamed(u.Field(j).Type(), "io", "Reader")) {
+						out = append(out, NamedFormula{Name: p.Name() + ".Body!=nil", Formula: not(eq(sx("if_tag", sx(e.D.FieldSelector(t, j), a)), "0"))})
+					}
 					if isHTTPRequestPtr(u.Field(j).Type()) {
 						fv := sx(e.D.FieldSelector(t, j), a)
 						for _, nf := range requestFacts(e, fv, u.Field(j).Type(), st) {
